@@ -560,9 +560,10 @@ func (p *P2P) NewStreams() (streams map[lib.Topic]*Stream) {
 func (s *Stream) cleanup() {
 	s.mu.Lock()
 	defer s.mu.Unlock()
-	s.closed = true
-	s.msgAssembler = nil // Release the buffer
-	close(s.sendQueue)   // Close send channel
+	s.closed.Store(true)
+	// NOTE: the send queue is not closed and the assembler is left to its only user (the receive service): the heartbeat
+	// paths send on the queue and handlePacket() writes the assembler without this mutex, so closing / clearing them here
+	// raced with both (a send on the closed queue crashes the process); they are collected together with the stream
 }
 
 // IsSelf() returns if the peer address public key equals the self public key
